@@ -10,6 +10,8 @@ use pc_keyboard::{KeyCode, KeyboardLayout};
 
 pub struct Cube {
     pub keys: Vec<KeyCode>,
+    /// 10 known layouts + extras discovered in the tree (extras: the three forms are the same bare object)
+    pub n_layouts: usize,
     /// [obj = li*3+form][key][mode][mods]
     pub data: Vec<u32>,
     pub calls: u64,
@@ -35,12 +37,13 @@ impl Cube {
     pub fn build() -> Cube {
         let keys = universe();
         let nk = keys.len();
-        let threads = n_threads().min(30);
+        let nl = n_layouts();
+        let threads = n_threads().min(nl * 3);
         let keys2 = keys.clone();
         let shards = par_map(threads, move |t| {
             let mut out: Vec<(usize, Vec<u32>, Vec<(usize, usize, usize, usize, u16, String)>)> = Vec::new();
             let mut obj = t;
-            while obj < 30 {
+            while obj < nl * 3 {
                 let (li, form) = (obj / 3, obj % 3);
                 let lay = layout_obj(li, form);
                 let mut v = vec![0u32; nk * 1024];
@@ -79,7 +82,7 @@ impl Cube {
             }
             out
         });
-        let mut data = vec![0u32; 30 * nk * 1024];
+        let mut data = vec![0u32; nl * 3 * nk * 1024];
         let mut panics = Vec::new();
         for shard in shards {
             for (obj, v, p) in shard {
@@ -88,7 +91,8 @@ impl Cube {
             }
         }
         Cube {
-            calls: (30 * nk * 1024) as u64,
+            calls: (nl * 3 * nk * 1024) as u64,
+            n_layouts: nl,
             keys,
             data,
             panics,
